@@ -374,3 +374,33 @@ def metachar_patterns(kind: str, per_pattern: int = 3):
             lit = META_LITERALS[(idx * per_pattern + j) % len(META_LITERALS)]
             yield Pat(kind, p.text.replace("'~'", lit), p.fields, "meta")
         idx += 1
+
+
+# --- embedded patterns whose text is a STANDARD pattern letter ------------------------------------------------------
+
+# fields of the culture-invariant standard letters (the others expand per culture: fields unknown here -> ())
+_STD_DATE_FIELDS = {"R": (("year", "uuuu"), ("mnum", "MM"), ("day", "dd")), "r": (("year", "uuuu"), ("mnum", "MM"), ("day", "dd"), ("cal", "c"))}
+_STD_TIME_FIELDS = {"o": (("H24", "HH"), ("min", "mm"), ("sec", "ss"), ("frac", ";FFFFFFFFF")),
+                    "O": (("H24", "HH"), ("min", "mm"), ("sec", "ss"), ("frac", ";fffffffff"))}
+_ISO_DATE = (("year", "uuuu"), ("mnum", "MM"), ("day", "dd"))
+_ISO_HM = (("H24", "HH"), ("min", "mm"))
+
+
+def embedded_standard(kind: str):
+    """LocalDateTime / Instant patterns whose embedded ld<...> / lt<...> text is a single standard pattern letter of the
+    embedded type (every letter of STANDARD['date'] / STANDARD['time']), combined with each other and with plain
+    fields.  delim = 'emb-std'; fields = () when a culture-dependent letter hides them."""
+    if kind not in ("datetime", "instant"):
+        return
+    z = "'Z'" if kind == "instant" else ""
+    for dl in STANDARD["date"]:
+        df = _STD_DATE_FIELDS.get(dl)
+        for tl in STANDARD["time"]:
+            tf = _STD_TIME_FIELDS.get(tl)
+            both = (df + tf) if (df and tf) else ()
+            yield Pat(kind, "ld<%s>'T'lt<%s>%s" % (dl, tl, z), both, "emb-std")
+            yield Pat(kind, "lt<%s>'~'ld<%s>%s" % (tl, dl, z), (tf + df) if both else (), "emb-std")
+        yield Pat(kind, "ld<%s>' 'HH':'mm%s" % (dl, z), (df + _ISO_HM) if df else (), "emb-std")
+    for tl in STANDARD["time"]:
+        tf = _STD_TIME_FIELDS.get(tl)
+        yield Pat(kind, "uuuu'-'MM'-'dd'T'lt<%s>%s" % (tl, z), (_ISO_DATE + tf) if tf else (), "emb-std")
